@@ -64,8 +64,8 @@ type e7Bus struct {
 	// the k-th Publish call of endpoint ep fails -- returns an error, queues
 	// nothing -- iff failScript[ep][k]. The script is drawn by the driver when the
 	// endpoint is created, so the publishing goroutines never touch the PRNG.
-	FaultsOn   bool
-	failScript [][]bool
+	FaultsOn      bool
+	failScript    [][]bool
 	PublishErrors int
 	// measured
 	Delivered, Reordered, Duplicated, Swallowed int
